@@ -730,15 +730,17 @@ class Verifier(QuantMixin, LoopMixin, ExprMixin, CallMixin, StmtMixin, BuiltinsM
     def apply_contract(self, ct: Contract, fi: FuncInfo, args, kwargs, star, dstar, node=None):
         env = self.bind_for_contract(fi, args, kwargs, star, dstar, node)
         where = f'{fi.qualname}@{getattr(node, "lineno", "?")}'
+        cur = getattr(self, 'current_contract', None)
+        site_props = tuple(dict.fromkeys((cur.props if cur is not None else ()) + ct.props))
         # caller proves the callee's typing and preconditions
         for p, spec in ct.types.items():
             if p in env:
-                self.oblige('requires@callee', f'{where}: {p} : {spec}', self.type_formula(env[p], spec), ct.props)
+                self.oblige('requires@callee', f'{where}: {p} : {spec}', self.type_formula(env[p], spec), site_props)
         for p, q in ct.pins.items():
             if p in env:
-                self.oblige('requires@callee', f'{where}: {p} is {q}', env[p] == self.pin_val(q), ct.props)
+                self.oblige('requires@callee', f'{where}: {p} is {q}', env[p] == self.pin_val(q), site_props)
         for rq in ct.requires:
-            self.oblige('requires@callee', f'{where}: {rq.name}', self.clause_holds(rq, env), ct.props)
+            self.oblige('requires@callee', f'{where}: {rq.name}', self.clause_holds(rq, env), site_props)
         saved_old = self.old
         self.old = self.st.snapshot()          # old() inside the callee's clauses = state before this call
         try:
